@@ -384,7 +384,14 @@ def explore(a):
     if sub == 0:
         return _explore_assign(a)
     if sub == 1:
-        return _explore_identity(a)
+        # unobserved by the live-object probe's profiler, which would keep every released object alive
+        import sys
+        prof = sys.getprofile()
+        sys.setprofile(None)
+        try:
+            return _explore_identity(a)
+        finally:
+            sys.setprofile(prof)
     raise RuntimeError("bad exploration")
 
 
